@@ -351,6 +351,8 @@ where
                     "Unexpected end parsing varint".to_string(),
                 ))
             })?;
+            // The next varint (push id / session id) has its own length
+            self.expected = None;
 
             return Poll::Ready(Ok((reult, stream_stopped)));
         }
